@@ -106,6 +106,17 @@ class VProblem(Problem):
             solution.constraints[:] = [a + b - 1.5] + [0.0] * (self.nconstrs - 1)
 
 
+def fixed_weights(nobjs, count):
+    """a tiny user-supplied MOEA/D weight generator: `count` fixed weight vectors (corners first, then interior points)"""
+    out = [[1.0 if j == i else 0.0 for j in range(nobjs)] for i in range(min(count, nobjs))]
+    k = 1
+    while len(out) < count:
+        raw = [((k * (j + 2)) % 7) + 1.0 for j in range(nobjs)]
+        out.append([x / sum(raw) for x in raw])
+        k += 1
+    return out
+
+
 def make_variator(kind, vtype):
     """-> (variator or None for the algorithm's default, kids per evolve() call)"""
     real = vtype == "real"
@@ -193,9 +204,22 @@ def build(name, vtype="real", pop=4, off=None, seed=None, constrained=False, nob
     elif name == "SPEA2":
         alg = SPEA2(problem, population_size=pop, variator=var, **kw)
     elif name == "MOEAD":
-        alg = MOEAD(problem, neighborhood_size=min(3, max(pop, 2)), variator=var, population_size=pop, **kw)
-        info["pop"] = max(pop, nobjs) if nobjs == 2 else pop
-        info["nsub"] = info["pop"] if kw.get("update_utility") is None else max(info["pop"], nobjs)
+        # weights: None (library default random_weights, population_size=pop) | ["nbw", divisions_outer] | ["fixed", count]
+        weights = kw.pop("weights", None)
+        nbh = kw.pop("neighborhood_size", None)
+        if weights is None:
+            n = max(pop, nobjs)      # random_weights always returns the nobjs corner vectors first
+            wkw = {"population_size": pop}
+        elif weights[0] == "nbw":
+            from platypus.weights import normal_boundary_weights
+            n = len(normal_boundary_weights(nobjs, weights[1]))
+            wkw = {"weight_generator": normal_boundary_weights, "divisions_outer": weights[1]}
+        else:
+            n = weights[1]
+            wkw = {"weight_generator": fixed_weights, "count": weights[1]}
+        alg = MOEAD(problem, neighborhood_size=min(nbh if nbh else 3, max(n, 1)), variator=var, **wkw, **kw)
+        info["pop"] = n
+        info["nsub"] = n
     elif name == "IBEA":
         alg = IBEA(problem, population_size=pop, variator=var, **kw)
     elif name == "PAES":
@@ -233,7 +257,10 @@ def current_cfg(alg, info):
     off = getattr(alg, "offspring_size", info["off"])
     nsub = info["nsub"]
     if info["name"] == "MOEAD":
-        nsub = pop if getattr(alg, "update_utility", None) is None else max(pop, alg.problem.nobjs)
+        from platypus.weights import random_weights
+        # algorithms.py:732-749: utility-based search starts from range(nobjs) only with the default weight generator
+        nsub = max(pop, alg.problem.nobjs) if (getattr(alg, "update_utility", None) is not None
+                                               and alg.weight_generator == random_weights) else pop
     return int(pop), int(off), int(info["kids"]), int(nsub)
 
 
